@@ -202,7 +202,7 @@ const A_EDGE: &[&str] = &["Lf", "Lx", "Dg", "Mk", "Zj"];
 const A_VERT: &[&str] = &["Lf", "Lx", "Dg", "Mk", "Sp"];
 
 // feature configuration indices, see FEAT_NAMES
-const C_FRAC: &[u8] = &[4, 1, 5];
+const C_FRAC: &[u8] = &[4, 1, 5, 7];
 const C_DEFAULT: &[u8] = &[0, 1];
 const C_GPOS: &[u8] = &[0, 9];
 const C_CTX: &[u8] = &[0];
@@ -239,8 +239,9 @@ fn frac_fonts(out: &mut Vec<SynthFont>) {
     // text before the fraction shrinks (ligature)
     push("liga", A_FRAC, vec![feat("frac", &[1]), feat("liga", &[0])], vec![liga_f(0), frac_single()]);
     // text before the fraction grows (decomposition), an empty multiple substitution deletes x
-    push("ccmp", A_FRAC, vec![feat("ccmp", &[0, 1]), feat("frac", &[2])],
-         vec![ccmp_decompose(), multiple(0, &[G_X], &[&[]]), frac_single()]);
+    // (and `fina`, which Custom lists apply to the last glyph only: the run may be empty by then)
+    push("ccmp", A_FRAC, vec![feat("ccmp", &[0, 1]), feat("fina", &[3]), feat("frac", &[2])],
+         vec![ccmp_decompose(), multiple(0, &[G_X], &[&[]]), frac_single(), single(0, &[G_F, G_E, G_ACUTE, G_TWO, G_DNOM], &[G_I, G_XALT, G_DOTBELOW, G_ONE, G_NUMR])]);
     // the frac lookup itself shrinks / grows the fraction: 1/2 -> onehalf, 2 -> 2 2
     push("fraclig", A_FRAC, vec![feat("frac", &[1, 2]), feat("liga", &[0])],
          vec![liga_f(0), ligature(0, G_ONE, &[(G_ONEHALF, &[G_SLASH, G_TWO])]), multiple(0, &[G_TWO], &[&[G_DNOM, G_DNOM]])]);
@@ -311,6 +312,19 @@ fn marklig_fonts(out: &mut Vec<SynthFont>) {
             }
         }
     }
+}
+
+/// LigatureArray with fewer LigatureAttach tables than the ligature coverage has glyphs
+fn marklig_short_array(out: &mut Vec<SynthFont>) {
+    let mut f = base("marklig-shortarray".into(), "marklig", A_MARKLIG, C_DEFAULT);
+    f.wf = false;
+    f.gsub = Some(gsub_prog(vec![feat("liga", &[0])], vec![liga_f(8)]));
+    f.gpos = Some(gpos_prog(
+        vec![feat("mark", &[0])],
+        vec![pl(5, 0, vec![json!({"mcov": pcov(&[G_ACUTE, G_DOTBELOW]), "lcov": pcov(&[G_LIG2, G_LIG3, G_LIG4]), "nc": 1, "marks": mark_array(),
+                                 "ligs": [[[anc(100, 700)], [anc(300, 700)]]]})])],
+    ));
+    out.push(f);
 }
 
 fn mark_fonts(out: &mut Vec<SynthFont>) {
@@ -385,7 +399,7 @@ fn ctx_fonts(out: &mut Vec<SynthFont>) {
     let cd = json!({"fmt": 1, "start": 0, "classes": cls});
     for (aname, action) in &actions {
         let kinds: Vec<(&str, Value)> = vec![
-            ("ctx1", sl(5, 0, vec![json!({"fmt": 1, "cov": cov(&x), "sets": [[{"input": [], "recs": [[0, 1]]}]]})])),
+            ("ctx1", sl(5, 0, vec![json!({"fmt": 1, "cov": cov(&x), "sets": [[{"input": [], "recs": [[0, 1], [0, 2]]}]]})])),
             // two glyph input x f: the nested lookup at 0, then a single substitution at 1 (stale after a deletion)
             ("ctx3-2", sl(5, 0, vec![json!({"fmt": 3, "input": [cov(&x), cov(&ff)], "recs": [[0, 1], [1, 2]]})])),
             ("chain3-back", sl(6, 0, vec![json!({"fmt": 3, "back": [cov(&ff)], "input": [cov(&x)], "look": [], "recs": [[0, 1]]})])),
@@ -676,6 +690,7 @@ pub fn catalog() -> Vec<SynthFont> {
     let mut out = Vec::new();
     frac_fonts(&mut out);
     marklig_fonts(&mut out);
+    marklig_short_array(&mut out);
     mark_fonts(&mut out);
     curs_fonts(&mut out);
     ctx_fonts(&mut out);
